@@ -11,7 +11,8 @@
     the other kinds' machines are related to their formulas in C02/C03 and compose the same way.
   * EVERY kind realises its documented formula (`C05_every_kind_realises`: the C02/C03/C04 run theorems of all 15 kinds
     lifted to the configurable average), so the `Realises` hypotheses of the step theorems below can be discharged for
-    every configuration; done for MACD from its constructor (`C05_macd_init_every_kind`).
+    every configuration; done for MACD from its constructor (`C05_macd_init_every_kind`) and over whole streams (`C05_macd_run`:
+    for every accepted configuration, every candle stream, every step).
   * MACD (every stream, every pair of realised averages): value 0 is `f₁(sources) − f₂(sources)`, value 1 is
     `f₃` of the history of value 0 (`C05_macd_step`, an invariant step lifted over candle lists by `runM_invariant`).
   * Donchian channel, from `init`, over every candle list: the bounds are a greatest / least element of the last `n`
@@ -61,6 +62,7 @@ import YataProofs.Indicators.Tier2
 import YataProofs.Indicators.Tier2b
 import YataProofs.Indicators.Realises2
 import YataProofs.Indicators.RealisesEvery
+import YataProofs.Indicators.MACDRun
 namespace Yata.C05
 open Yata Yata.Ind
 
@@ -294,6 +296,19 @@ theorem C05_macd_init_every_kind {P : Nat} (c : MACDCfg) (k : Candle ℚ) (hv : 
       MACD.Inv (specOf c.ma1.kind c.ma1.length (k.source c.source)) (specOf c.ma2.kind c.ma2.length (k.source c.source))
         (specOf c.signal.kind c.signal.length 0) [] [] s := MACD.init_every_kind c k hv h1 h2 h3
 
+/-- MACD over whole streams, every accepted configuration (any of the 15 kinds in each of the three slots): value 0 is the
+    difference of the two documented averages of the sources so far, value 1 the documented signal average of the history
+    of value 0 -/
+theorem C05_macd_run {P : Nat} (c : MACDCfg) (k0 : Candle ℚ) (hv : MACD.validate c = true)
+    (h1 : validLen P c.ma1.kind c.ma1.length) (h2 : validLen P c.ma2.kind c.ma2.length)
+    (h3 : validLen P c.signal.kind c.signal.length) (cs : List (Candle ℚ)) :
+    ∃ s0 outs s', MACD.init P c k0 = .ok s0 ∧ runM (fun s k => s.vals k none) s0 cs = .ok (outs, s') ∧ outs.length = cs.length ∧
+      ∀ i (hi : i < outs.length),
+        (outs[i]).map VExp.value =
+          [MACD.line c k0 (cs.take (i + 1)),
+           specOf c.signal.kind c.signal.length 0 ((List.range (i + 1)).map fun j => MACD.line c k0 (cs.take (j + 1)))] :=
+  MACD.run_spec c k0 hv h1 h2 h3 cs
+
 /-! non-vacuity: a reachable MACD state satisfies the invariant (both default averages are EMAs) -/
 example : ∃ m, MA.init 255 { kind := .ema, length := 12 } (100 : ℚ) = .ok m ∧
     Realises (fun h => Spec.emaRec (((2 : Nat) : ℚ) / ((12 + 1 : Nat) : ℚ)) 100 h) m [] :=
@@ -334,3 +349,4 @@ end Yata.C05
 #print axioms Yata.C05.C05_rma_realises
 #print axioms Yata.C05.C05_every_kind_realises
 #print axioms Yata.C05.C05_macd_init_every_kind
+#print axioms Yata.C05.C05_macd_run
